@@ -145,13 +145,25 @@ def qual(name):
     return name if "::" in name else f"u64::{name}"
 
 
-def check_proc(meta, interp, name, src, nops, fn, V, cov, stdlib=True):
+def lval(ctx, l):
+    return z3.IntVal(l.const) if l.is_const() else ctx.value(l)
+
+
+def check_proc(meta, interp, name, src, nops, fn, V, cov, stdlib=True, concrete=None):
+    """concrete: operand items (top first) fixed to the given integers - used for the division procedures
+    in the quick tier: operands concrete, the advice (quotient / remainder hint) fully symbolic"""
     a = masmsym.assemble([src], stdlib=stdlib)[0]
     if a["status"] != "ok":
         V.add(qual(name), "inconclusive", detail=f"assembler: {str(a)[:200]}")
         return
 
     def pre(it, init):
+        if concrete is not None:
+            proc = it.models
+            for i, cval in enumerate(concrete):
+                init[i] = mirsym.F(Lin({}, cval))
+                proc.stack.top[i] = init[i]
+            return
         for i in range(nops):
             it.assume(it.ctx.value(init[i].l) < T32)
 
@@ -170,7 +182,7 @@ def check_proc(meta, interp, name, src, nops, fn, V, cov, stdlib=True):
         ctx = res.ctx
         init = res.info["init"]
         s = [x.l for x in init]
-        v = [ctx.value(l) for l in s]
+        v = [lval(ctx, l) for l in s]
         sp = fn(ctx, s, v)
         fail = sp.get("fail", z3.BoolVal(False))
         solver = z3.Solver()
@@ -191,7 +203,7 @@ def check_proc(meta, interp, name, src, nops, fn, V, cov, stdlib=True):
             if len(final) != len(want):
                 posts.append((f"final depth {len(want)}", z3.BoolVal(False)))
             else:
-                fv = [ctx.value(x.l) for x in final]
+                fv = [lval(ctx, x.l) for x in final]
                 a64, b64 = (v[2] * T32 + v[3], v[0] * T32 + v[1]) if sp.get("div") else (None, None)
                 if sp.get("div"):
                     # positions of q / r limbs on the final stack
@@ -242,7 +254,7 @@ def check_proc(meta, interp, name, src, nops, fn, V, cov, stdlib=True):
                 V.add(oname, "not-decided", detail=NOT_DECIDED[oname] + " | " + str(info)[:120])
             else:
                 V.add(oname, "inconclusive", detail=str(info)[:200])
-    if n_ok == 0:
+    if n_ok == 0 and not (concrete is not None and concrete[0] == 0 and concrete[1] == 0):  # a zero divisor must not complete
         V.add(f"{qual(name)}:some-ok-path", "inconclusive", detail="no completed path")
 
 
@@ -255,6 +267,7 @@ def item(ctx, got, want):
 
 
 def ref_concrete(name, st):
+    name = name.split("@")[0]
     if name.startswith("u256::"):
         n = name.split("::")[1]
         val = lambda ls: sum(x << (32 * i) for i, x in enumerate(reversed(ls)))  # noqa: E731
@@ -320,12 +333,17 @@ def _worker(job):
     V = Verdict(PROP)
     cov = dict(paths=0, queries=0, solver_time_s=0.0, native_validated=0)
     t0 = time.time()
-    if isinstance(key, tuple) and key[0] == "u256":
+    concrete = None
+    if isinstance(key, tuple) and key[0] == "divc":
+        fn = specs()[key[1]][1]
+        av, bv_ = key[2]
+        concrete = [bv_ // T32, bv_ % T32, av // T32, av % T32]
+    elif isinstance(key, tuple) and key[0] == "u256":
         fn = specs256()[key[1]][1]
     else:
         fn = specs()[key][1] if key in specs() else shift_spec(*key)
     try:
-        check_proc(_W["meta"], _W["interp"], name, src, nops, fn, V, cov)
+        check_proc(_W["meta"], _W["interp"], name, src, nops, fn, V, cov, concrete=concrete)
     except Exception as e:
         V.add(qual(name), "inconclusive", detail=f"{type(e).__name__}: {e}")
     for o in V.obligations:
@@ -352,13 +370,20 @@ def main():
         quick_counts = {"shl": [0, 33], "shr": counts, "rotl": [1, 32, rng.randrange(2, 31)], "rotr": [0, 32, rng.randrange(33, 63)]}[kind]
         for n in (counts if tier() == "thorough" else quick_counts):  # rotations / shl multiply by 2^n: heavy
             jobs.append((f"{kind}.{n}", f"use.std::math::u64 begin push.{n} exec.u64::{kind} end", 2, (kind, n)))
+    # division with CONCRETE operands and a fully symbolic (adversarial) hint (thorough tier): the solver decides over
+    # all 2^128 hints per operand pair; a counterexample needs a dishonest U64Div hint, which the scripted host of the
+    # replay binary does not serve yet - such a counterexample ends as exit 2 (inconclusive), not as a VIOLATION
+    DIV_OPERANDS = [(10, 5), (0, 0), (5, 0), (T64 - T32, T32), (T64 - 1, 1), (7, T32 + 1), (T64 - 1, T64 - 1), (T64 - 1, T32 - 1), (6 * T32, 3)]
+    for pname in ("div", "mod", "divmod"):
+        for av, bv_ in (DIV_OPERANDS if tier() == "thorough" or only else []):  # minutes per pair (measured 70-840 s): thorough tier only
+            jobs.append((f"{pname}@a={av},b={bv_}", f"use.std::math::u64 begin exec.u64::{pname} end", 4, ("divc", pname, (av, bv_))))
     quick256 = {"add_unsafe", "sub_unsafe", "and"}  # or / xor expand to a + b - and / a + b - 2 and per limb: minutes; iszero / eq fork per limb
     for name, (nops, fn) in specs256().items():
         if tier() != "thorough" and name not in quick256 and f"u256::{name}" not in only and "u256" not in only:
             continue
         jobs.append((f"u256::{name}", f"use.std::math::u256 begin exec.u256::{name} end", nops, ("u256", name)))
     if only:
-        jobs = [j for j in jobs if j[0] in only or j[0].split(".")[0] in only or ("u256" in only and j[0].startswith("u256::"))]
+        jobs = [j for j in jobs if j[0] in only or j[0].split(".")[0] in only or ("u256" in only and j[0].startswith("u256::")) or ("divc" in only and "@" in j[0])]
     masmsym.replay_bin()
     _W.update(meta=meta, interp=opsum.make_interp(max_paths=4000))
     import multiprocessing as mp_
@@ -380,7 +405,7 @@ def main():
         obligations=len(V.obligations), discharged=c.get("discharged", 0), queries=cov["queries"], solver_time_s=round(cov["solver_time_s"], 1),
         procedures=[j[0] for j in jobs], slow=cov["slow"],
         functions_encoded=["stdlib/asm/math/u64.masm (assembled by the real assembler)", "stdlib/asm/math/u256.masm: add_unsafe, sub_unsafe, and, or, xor, iszero_unsafe, eq_unsafe (16 symbolic 32-bit limbs, 2 items beneath)", "Process::execute_op and op bodies (MIR)"],
-        bounds="operands: arbitrary 32-bit limbs, 14 arbitrary items beneath; shifts/rotations: one obligation per listed count; adversarial advice for div/mod/divmod",
+        bounds="operands: arbitrary 32-bit limbs, 14 arbitrary items beneath; shifts/rotations: one obligation per listed count; adversarial advice for div/mod/divmod (thorough tier: symbolic operands, and the listed concrete operand pairs with a fully symbolic hint)",
         tier_note="quick tier leaves div/mod/divmod/overflowing_mul, most shift counts and u256 or/xor/iszero_unsafe/eq_unsafe to the thorough tier (iszero_unsafe / eq_unsafe: branch feasibility not decided within the caps when last tried: reported not-covered, not claimed)",
         not_covered="u64 clz/ctz/clo/cto (pow2 of a symbolic hint: not decided), u256::mul_unsafe (uses procedure locals: memory contents are not modelled in Engine D)",
         sources_fingerprint=repo_fingerprint(["stdlib/asm/math/u64.masm", "stdlib/asm/math/u256.masm", "processor/src/operations", "assembly/src/assembler/instruction"]),
